@@ -1,5 +1,5 @@
-CONSTANTS Threads <- T3  DynVars <- Dyn  NonDyn = "n"  Vals <- OneVal  Bad <- MBad  Maps <- FewMaps  Orders <- TwoOrders
-          SpawnKinds <- AllKinds  MaxDepth = 1  NoRollback = FALSE
+CONSTANTS Threads <- T3  DynVars <- Dyn  NonDyn = "n"  Vals <- OneVal  Bad <- MBad  Maps <- TinyMaps  Orders <- OneOrder
+          SpawnKinds <- TwoKinds  MaxDepth = 1  NoRollback = FALSE
 SPECIFICATION Spec
 INVARIANT RestoredOnExit
 INVARIANT WellFormed
